@@ -15,6 +15,11 @@ def claim(pid, technique, text, note, ref):
 def na(pid, reason):
     NA[pid] = reason
 
+def also(pid, text):
+    """appends a sentence to the level text of a claim made above"""
+    tech, old, note, ref = CLAIMS[pid]
+    CLAIMS[pid] = (tech, old.rstrip() + " " + text, note, ref)
+
 exec(open(os.path.join(HERE, "tools", "claims.py")).read())
 
 props = [json.loads(l)["id"] for l in open(os.path.join(HERE, "properties.jsonl"))]
